@@ -193,7 +193,7 @@ pub fn gen_case(rng: &mut Rng, fx: &Fixtures) -> Case {
             // up often enough through the size-weighted draw)
             _ if rng.chance(1, if debug_stage() { 60 } else { 250 }) => fx.maps[*rng.pick(&fx.amplify[..])].clone(),
             // and so do the large ones (each costs tens of milliseconds, so a small share)
-            _ if rng.chance(1, if debug_stage() { 150 } else { 8000 }) => fx.maps[*rng.pick(&fx.scale[..])].clone(),
+            _ if rng.chance(1, if debug_stage() { 150 } else { 5000 }) => fx.maps[*rng.pick(&fx.scale[..])].clone(),
             Some(k) if rng.chance(85, 100) => zoo::draw_kind(rng, fx, k, 2),
             _ => zoo::draw_weighted(rng, fx, 2, &[34, 26, 15, 15, 4, 4, 2]),
         };
@@ -981,7 +981,7 @@ fn run_case_in_child(path: &str, timeout_s: u64) -> (String, String, String) {
         .stderr(std::process::Stdio::null())
         .spawn()
         .unwrap_or_else(|e| harness_error(&format!("spawn: {e}")));
-    let t0 = std::time::Instant::now();
+    let mut watch = Watch::new(child.id());
     loop {
         match child.try_wait() {
             Ok(Some(st)) => {
@@ -1009,11 +1009,10 @@ fn run_case_in_child(path: &str, timeout_s: u64) -> (String, String, String) {
                 return (format!("abort:{how}"), String::new(), format!("the process died ({how}) while executing the case"));
             }
             Ok(None) => {
-                let wall = t0.elapsed().as_secs();
-                if wall > timeout_s && (wall > timeout_s * WALL_FACTOR || cpu_seconds(child.id()).map(|c| c > timeout_s as f64).unwrap_or(true)) {
+                if watch.stalled(child.id(), timeout_s) {
                     let _ = child.kill();
                     let _ = child.wait();
-                    return ("hang-backstop".into(), String::new(), format!("no result within {timeout_s} s of CPU time"));
+                    return ("hang-backstop".into(), String::new(), format!("no result within {timeout_s} s of CPU time (or blocked for as long)"));
                 }
                 std::thread::sleep(std::time::Duration::from_millis(5));
             }
@@ -1144,8 +1143,8 @@ struct Slot {
     hi: u64,
     last_idx: u64,
     since: std::time::Instant,
-    /// CPU seconds the child had used when it announced the run it is on
-    cpu_at_change: f64,
+    /// progress watch, restarted whenever the child announces a new run
+    watch: Watch,
 }
 
 /// CPU time (user + system, all threads) a process has used, from /proc/<pid>/stat. The
@@ -1163,6 +1162,53 @@ fn cpu_seconds(pid: u32) -> Option<f64> {
 }
 
 const WALL_FACTOR: u64 = 10;
+
+/// True when no thread of the process is runnable or in uninterruptible wait: together with a
+/// CPU counter that stands still this is a blocked process (a self-deadlock), as opposed to one
+/// that is merely not being given a core.
+fn all_threads_sleeping(pid: u32) -> bool {
+    let Ok(rd) = std::fs::read_dir(format!("/proc/{pid}/task")) else { return false };
+    let mut seen = false;
+    for e in rd.flatten() {
+        let Ok(s) = std::fs::read_to_string(e.path().join("stat")) else { continue };
+        let Some(p) = s.rfind(')') else { continue };
+        match s[p + 1..].split_whitespace().next() {
+            Some("S") => seen = true,
+            _ => return false,
+        }
+    }
+    seen
+}
+
+/// Progress watch for one child on one run: stalled when it has burnt more than `limit` CPU
+/// seconds on it, or has been blocked (all threads asleep, CPU counter unchanged) for `limit`
+/// seconds, or, as an outer bound, after WALL_FACTOR x `limit` seconds of wall-clock time.
+struct Watch {
+    since: std::time::Instant,
+    cpu_at_start: f64,
+    cpu_last: f64,
+    cpu_last_at: std::time::Instant,
+}
+
+impl Watch {
+    fn new(pid: u32) -> Watch {
+        let c = cpu_seconds(pid).unwrap_or(0.0);
+        let now = std::time::Instant::now();
+        Watch { since: now, cpu_at_start: c, cpu_last: c, cpu_last_at: now }
+    }
+    fn stalled(&mut self, pid: u32, limit: u64) -> bool {
+        let wall = self.since.elapsed().as_secs();
+        if wall <= limit {
+            return false;
+        }
+        let Some(c) = cpu_seconds(pid) else { return true };
+        if c != self.cpu_last {
+            self.cpu_last = c;
+            self.cpu_last_at = std::time::Instant::now();
+        }
+        c - self.cpu_at_start > limit as f64 || (self.cpu_last_at.elapsed().as_secs() > limit && all_threads_sleeping(pid)) || wall > limit * WALL_FACTOR
+    }
+}
 
 fn on_case_thread<F: FnOnce() -> i32 + Send + 'static>(f: F) -> i32 {
     std::thread::Builder::new()
@@ -1250,7 +1296,8 @@ pub fn main(args: &Args) -> i32 {
                         .stderr(std::process::Stdio::null())
                         .spawn()
                         .unwrap_or_else(|e| harness_error(&format!("spawn child: {e}")));
-                    slots[w] = Some(Slot { child, out, lo, hi, last_idx: 0, since: std::time::Instant::now(), cpu_at_change: 0.0 });
+                    let watch = Watch::new(child.id());
+                    slots[w] = Some(Slot { child, out, lo, hi, last_idx: 0, since: std::time::Instant::now(), watch });
                 }
             }
             let mut finished = None;
@@ -1260,15 +1307,13 @@ pub fn main(args: &Args) -> i32 {
                 if inflight != s.last_idx {
                     s.last_idx = inflight;
                     s.since = std::time::Instant::now();
-                    s.cpu_at_change = cpu_seconds(s.child.id()).unwrap_or(0.0);
+                    s.watch = Watch::new(s.child.id());
                 }
                 match s.child.try_wait() {
                     Ok(Some(st)) => finished = Some((st, false)),
                     Ok(None) => {
-                        let wall = s.since.elapsed().as_secs();
-                        let stalled = wall > backstop
-                            && (wall > backstop * WALL_FACTOR || cpu_seconds(s.child.id()).map(|c| c - s.cpu_at_change > backstop as f64).unwrap_or(true));
-                        if stalled && s.last_idx > 0 {
+                        let pid = s.child.id();
+                        if s.watch.stalled(pid, backstop) && s.last_idx > 0 {
                             let _ = s.child.kill();
                             let st = s.child.wait().unwrap();
                             finished = Some((st, true));
